@@ -162,7 +162,7 @@ func c19DirBit(incoming bool) int {
 }
 
 func TestC19_ReloadRevalidation(t *testing.T) {
-	vk.Check(t, 1500, func(rt *rapid.T) {
+	vk.Check(t, 2500, func(rt *rapid.T) {
 		rapid.SyncTest(rt, c19History)
 	})
 }
@@ -194,7 +194,11 @@ func c19History(rt *rapid.T) {
 	}
 	nearWrap := rapid.IntRange(0, 2).Draw(rt, "nearWrap") == 0
 	if nearWrap {
-		fw.rulesVersion = uint16(65536 - rapid.IntRange(1, 4).Draw(rt, "belowWrap"))
+		// 1..4 below the wrap of the counter, whatever its width
+		fw.rulesVersion = 0
+		for k := rapid.IntRange(1, 4).Draw(rt, "belowWrap"); k > 0; k-- {
+			fw.rulesVersion--
+		}
 	}
 	f := &Interface{pki: pki, firewall: fw, l: fwrLogger}
 
@@ -342,7 +346,7 @@ func c19History(rt *rapid.T) {
 			labels["reload-rules-unchanged"]++
 		}
 		eff, effNode = next, newNode
-		if beforeV == 65535 {
+		if beforeV+1 == 0 { // the counter wrapped
 			wraps++
 			if vk.KnownOpen("C19", c19Key) {
 				// recorded finding: the wrap resets the conntrack table, whatever the rules say
@@ -448,7 +452,8 @@ func TestC19_Probe_rules_version_wrap_resets_conntrack(t *testing.T) {
 		if err != nil {
 			t.Fatal(err)
 		}
-		fw.rulesVersion = 65535
+		fw.rulesVersion = 0
+		fw.rulesVersion-- // 65535: the next reload wraps
 		f := &Interface{pki: pki, firewall: fw, l: fwrLogger}
 		h := fwrHost(n, peer)
 		p := firewall.Packet{LocalAddr: netip.MustParseAddr("10.0.0.1"), RemoteAddr: netip.MustParseAddr("10.0.0.2"), LocalPort: 80, RemotePort: 4000, Protocol: firewall.ProtoTCP}
